@@ -339,6 +339,18 @@ class World:
             self.plain_down.add(s)
         self.obs_frozen.discard(s)      # the state record becomes "down"
 
+    def ev_Blackout(self, s):
+        """A node (or an administrator) blacks the server out: /blackedout.servers/<s>."""
+        zkutils.ensure_exists(self.admin, z.path.blackedout_server(s))
+
+    def ev_ClearBlackout(self, s):
+        zkutils.ensure_deleted(self.admin, z.path.blackedout_server(s))
+
+    def ev_SetParent(self, s, bucket):
+        """An administrator re-parents a server (a `servers` event); the bucket may be
+        one that was never defined."""
+        masterapi.update_server_parent(self.admin, s, bucket)
+
     def ev_DetachRack(self, r):
         """An administrator takes a bucket out of the cell (its servers stay defined)."""
         masterapi.cell_remove_bucket(self.admin, r)
@@ -734,8 +746,21 @@ class World:
                          and nodes[z.path.server(s)].data not in (b'{}', b'null'))
         sched = sorted(self.aname(i) for i in self.store.children(z.SCHEDULED))
         running = sorted(self.aname(i) for i in self.store.children(z.RUNNING))
+        # servers a master must make part of its cell when it loads the store: a record
+        # with data whose parent bucket is defined and attached to the cell
+        incell = set(self.store.children(z.CELL))
+        defined = set(self.store.children(z.BUCKETS))
+        loadable = []
+        for s in records:
+            try:
+                data = yaml.safe_load(nodes[z.path.server(s)].data.decode()) or {}
+            except Exception:   # pylint: disable=broad-except
+                data = {}
+            par = data.get('parent') if isinstance(data, dict) else None
+            if par in defined and par in incell:
+                loadable.append(s)
         return dict(placement=pl, presence=presence, records=records, scheduled=sched,
-                    running=running)
+                    running=running, loadable=loadable)
 
     def project_lag(self):
         """The abstract state MasterLag.tla talks about."""
